@@ -412,7 +412,7 @@ def list_fragments(fst, S, tree, src, cidp, rep, res):
                 res.outcomes['list-fragment-ok'] += 1
                 # list modes whose grammar fixes the first token: anything put in front that is not that keyword makes the text
                 # invalid for the mode, whatever the parse wrapper would make of it
-                lead = {'_comprehensions': ('for', 'async'), '_comprehension_ifs': ('if',), '_ExceptHandlers': ('except',),
+                lead = {'_comprehensions': ('for', 'async'), 'comprehension': ('for', 'async'), '_comprehension_ifs': ('if',), '_ExceptHandlers': ('except',),
                         '_match_cases': ('case',), '_decorator_list': ('@',)}.get(mode)
                 if lead:
                     for junk in ('.x ', '(y) ', 'or z ', '[0] ', ', ', 'x ', '] + [', ') or ('):
